@@ -343,10 +343,28 @@ pub fn run_c03(out: &mut Out, rng: &mut Rng, tier: Tier) -> String {
     huge_zst::<Z2>(out, 2);
     huge_zst::<Z4>(out, 4);
     huge_zst::<Z8>(out, 8);
+    // the iterators on a matrix that survived a caught panic inside `resize` (a destructor of the cut-off tail or a
+    // `T::default()` of the new tail panicking at callback k): what they hand out must still be elements of that matrix
+    for (nr, nc, tr, tc) in [(3usize, 2usize, 1usize, 1usize), (2, 3, 2, 1), (2, 2, 3, 3), (3, 3, 0, 2), (1, 4, 2, 4)] {
+        for order in ORDERS {
+            let callbacks = (tr * tc).abs_diff(nr * nc) as u64;
+            for k in 0..callbacks.min(3) {
+                out.case(&format!("survivor of a resize {nr}x{nc} -> {tr}x{tc} order={} fault at callback {k}", ord_ch(order)));
+                let mut w = crate::hist::World::<Tok>::new(out);
+                w.new_matrix(out, 0, order, nr, nc, 100);
+                w.fresize(out, 0, k, tr, tc);
+                w.views(out, 0, "viewsmut", "rows", "FB", "B");
+                w.views(out, 0, "viewsmut", "cols", "-", "-");
+                w.drop_reg(out, 0);
+                out.count("sequences:survivor");
+                out.nontrivial();
+            }
+        }
+    }
     format!(
         "exhaustive core: every call sequence of length 1..={exh_len} over {{outer next/next_back/len, inner_i next/next_back/len (i < 2)}} on the shapes 1x1, 1x2, 2x1, 2x2, 2x3, 3x2, 0x2, 2x0, 0x0 x both orders x both axes (element sizes 1, 4, 24 in rotation); \
          {n} random call sequences (length 10..70 quick / 10..210 thorough, including calls on iterators not yet produced) on all shapes 0..=5 x 0..=5 with element layouts (size, align) in {{(0,1),(0,2),(0,4),(0,8),(1,1),(4,4),(24,8),(40,8)}}; \
-         zero-sized element matrices with extents up to usize::MAX (1 x MAX, MAX x 1, 3 x MAX/3, MAX/2 x 2, 2^32 x 2^31) for alignments 1, 2, 4, 8. All inner iterators are kept alive. \
+         the mutable views of matrices that survived a caught panic at callback 0..2 of a shrinking / growing `resize` (5 shape pairs x both orders); zero-sized element matrices with extents up to usize::MAX (1 x MAX, MAX x 1, 3 x MAX/3, MAX/2 x 2, 2^32 x 2^31) for alignments 1, 2, 4, 8. All inner iterators are kept alive. \
          Observations: yielded element offset, len(), and every lower/upper pointer value formed (verif-hooks recorder). Oracle: independent deque-of-deques; every address is the expected element, never twice; len() = items to come; every recorded pointer inside [base, base+len*size] and aligned. Every case is non-trivial"
     )
 }
